@@ -95,6 +95,26 @@ CHECKS = {
             'Trusts TLC and the log records as the report channel. The after-repair clause is checked by C04. Not generated: '
             'nter/cter combined with a residue number; specifications whose number part is not /[0-9]+/.',
             'DESIGN.md section 5 / C19'),
+    'C01': ('model_checking',
+            'TLA+ spec Mapping (Placements as induced embeddings, order by lowest atom key, ApplyBlock with fresh keys / '
+            'residue shift / constituents and weights / particles built from no atom, InterEdges, UnmappedHeavy, Overlapping) '
+            'evaluated by TLC on recorded runs of the real DoMapping with apply_block_mapping interposed',
+            'For each recorded run TLC recomputes all placements, their order, the complete output (particles in order with '
+            'residue numbers, retained input residue number, constituents with weights, intra- and inter-placement bonds, block '
+            'interactions) and the two warnings from the declarative definitions and requires the real output to equal them.',
+            'Trusts TLC and the interposition. Mappings are built as objects with integer weights; modification mappings are not '
+            'generated; runs where two placements share their lowest atom are not judged.',
+            'DESIGN.md section 5 / C01'),
+    'C09': ('model_checking',
+            'TLA+ operator Mean (exact weighted mean over the positioned constituents in integer arithmetic, NaN iff the '
+            'denominator is zero) evaluated by TLC on particles placed by the real DoAverageBead: hand-built particles with '
+            'rigid-motion twins, and particles of real DoMapping runs, with and without a centre weight',
+            'The position the real code computes, scaled by the exact denominator, must equal the exact integer numerator TLC '
+            'computes; zero weights, zero masses, missing coordinates, shared atoms and rotated/translated twins are generated '
+            'families whose counts are reported.',
+            'Trusts TLC; the float-to-integer conversion rejects rounding errors above 1e-6 relative. Negative weights are not '
+            'generated.',
+            'DESIGN.md section 5 / C09'),
 }
 
 PENDING = {}
